@@ -165,6 +165,7 @@ def port_programs(tier):
     for p in families.g_peep('quick'):
         if p.pid.startswith('peep/1/'): base.append(p)
         elif p.pid.startswith('peep/2/') and stable_pick(p.pid, 1000, 25 if tier == 'quick' else 200): base.append(p)
+        elif p.pid.startswith(('peep/s/', 'peep/f')) and 'w_shrass' not in p.pid and stable_pick(p.pid, 1000, 60 if tier == 'quick' else 400): base.append(p)      # (the 16-bit shift defect P01 stays covered by the pair family)
     for p in families2.all_core('quick'):
         if stable_pick(p.pid, 1000, 30 if tier == 'quick' else 300): base.append(p)
     out = []
